@@ -123,16 +123,17 @@ CHECKS = {
     technique="bounded model checking over all schedules (AST -> CFG -> bit-vector transition relation, z3 SAT) + schedule replay on real threads"),
  "C13": dict(
     category="model_checking", design_ref="DESIGN.md sections 2.3 and 4 (C13)", engine="engine-B",
-    text=("Schedule-symbolic bounded model checking of the real serve/_dispatch/_seq_request_callback/AsyncResult.wait/__call__/"
+    text=("Schedule-symbolic bounded model checking of the real _async_request/serve/_dispatch/_seq_request_callback/AsyncResult.wait/__call__/"
           "BgServingThread._bg_server: their ASTs are lowered to statement-level CFGs at every run, executed with a per-thread call stack over a "
           "bit-vector model of the receive lock, the condition variable, the inbox, the callback table and the result fields, against a peer that "
           "may put any outstanding reply on the wire at any step. z3 decides over all schedules within the bound that no frame is dispatched twice, "
           "no request completes with another request's reply or without its own, no reply sits in the inbox while every thread sleeps un-notified, "
           "and nobody-can-move states only occur as the C14 stall. Counterexample schedules are replayed on real threads (sys.settrace gate, "
           "gated Condition, virtual-time channel)."),
-    note=("Depth-bounded: all interleavings of the first 60 statement-steps (a complete hand-off by every thread takes about 45); the unwinding "
-          "assertion is NOT established and the evidence says so. Quick: 1 waiter + background thread and 2 waiters without one (40 steps), <=1 "
-          "pre-emption each; thorough: 1 waiter + background thread exhaustively and 2 waiters with <=2 pre-emptions. Partial-order reduction (no switch before thread-local statements). Timeouts never "
+    note=("Depth-bounded: all interleavings of the first 64 statement-steps (a complete hand-off by every thread takes about 50); the unwinding "
+          "assertion is NOT established and the evidence says so. Quick: 1 waiter + background thread and 2 waiters without one (48 steps), <=1 "
+          "pre-emption each; thorough: 1 waiter + background thread exhaustively and 2 waiters with <=2 pre-emptions (46 steps). Shared integer "
+          "fields updated by constants are modelled generically; other new statement shapes make the run inconclusive. Partial-order reduction (no switch before thread-local statements). Timeouts never "
           "fire in the model; itertools.count atomicity, incoming requests and EOF are outside."),
     technique="bounded model checking over schedules (AST -> CFG -> bit-vector transition relation, z3 SAT, parallel cubes) + replay on real threads"),
  "C14": dict(
